@@ -186,14 +186,18 @@ HOWS = ["clean exit", "exception", "clean exit with a teardown callback", "cance
 
 
 def child_params(tier):
-    return [P("how", 0, 3), P("nested", 0, 1), P("sametask", 0, 1)]
+    return [P("how", 0, 3), P("nested", 0, 1), P("sametask", 0, 2)]
 
 
 @guard
 def child_fn(a, tier):
     from .common import flatten
 
-    how, nested, sametask = pick(a["how"], 4), pick(a["nested"], 2), pick(a["sametask"], 2)
+    how, nested, sametask = pick(a["how"], 4), pick(a["nested"], 2), pick(a["sametask"], 3)
+    # sametask 2: held by another task which has already left the child's block: the child is in the middle of its teardown (an async callback is
+    # waiting) - it still accepts resources and callbacks, i.e. it is still open in the sense of this property
+    mid_teardown = sametask == 2
+    sametask = 1 if sametask == 1 else 0
     out = {}
 
     async def main():
@@ -209,9 +213,16 @@ def child_fn(a, tier):
                             out["parent"] = parent
 
                             async def holder():
-                                async with Context(parent):
-                                    entered.set()
-                                    await release.wait()
+                                async with Context(parent) as child:
+                                    if mid_teardown:
+                                        async def slow_teardown():
+                                            entered.set()
+                                            await release.wait()
+
+                                        child.add_teardown_callback(slow_teardown)
+                                    else:
+                                        entered.set()
+                                        await release.wait()
 
                             if sametask:
                                 child = Context(parent)
@@ -242,7 +253,7 @@ def child_fn(a, tier):
             tg.cancel_scope.cancel()
 
     _, exc, _k = run(main)
-    summary = {"parent": "nested" if nested else "root", "parent_left_by": HOWS[how], "child": "entered in the same task" if sametask else "held open by another task"}
+    summary = {"parent": "nested" if nested else "root", "parent_left_by": HOWS[how], "child": "entered in the same task" if sametask else "held by another task, in the middle of its own teardown (async callback waiting)" if mid_teardown else "held open by another task"}
     e = out.get("exit")
     reported = e is not None and any(isinstance(x, RuntimeError) for x in flatten(e))
     if not reported:
@@ -259,7 +270,7 @@ CHILD = Harness(
     params=child_params,
     cube=lambda tier: 0,
     title="leaving a context while a child context entered from it is still open",
-    bound_text=lambda tier: "parent root / nested x left by {" + "; ".join(HOWS) + "} x child held open by another task / entered by hand in the same task",
+    bound_text=lambda tier: "parent root / nested x left by {" + "; ".join(HOWS) + "} x child held open by another task / entered by hand in the same task / held by another task and in the middle of its own teardown",
     oracle="the parent's exit raises a RuntimeError (possibly inside a group) naming the problem; the parent reports closed",
     outside="-",
     stubs=STUBS_COMMON,
